@@ -5,6 +5,7 @@ from __future__ import annotations
 
 import asyncio
 import itertools
+from fractions import Fraction
 import multiprocessing
 import os
 import random
@@ -109,6 +110,16 @@ def std_actions(ty: str, variant: str) -> List[str]:
             acts.append("GetUserName")
         if variant == "vendor":
             acts.append("GetPortMappingNumberOfEntries")
+        # the UPnP templates mark RequestTermination (and the vendor action) optional: a gateway offering both
+        # versions of WANIPConnection may implement them in one version only
+        if variant == "opt-v2" and ty == T_IP2:
+            acts.append("GetPortMappingNumberOfEntries")
+        if variant == "opt-v2" and ty == T_IP1:
+            acts.remove("RequestTermination")
+        if variant == "opt-v1" and ty == T_IP1:
+            acts.append("GetPortMappingNumberOfEntries")
+        if variant == "opt-v1" and ty in (T_IP2, T_PPP):
+            acts.remove("RequestTermination")
         if variant == "reduced":
             acts = [a for a in acts if a not in ("RequestTermination", "GetNATRSIPStatus", "GetStatusInfo", "AddPortMapping")]
     elif ty == T_CIC:
@@ -496,6 +507,7 @@ def run_series(ctx: Ctx, recipe: Dict[str, Any], cid: str) -> Case:
         if prof is None:
             return Case(cid, lines, recipe, False, sorted(tags))
         lines.append(f"t0 {clock['t']}")
+        prev_vals, prev_t = None, clock["t"]
         for op in recipe["ops"]:
             t, raws = int(op[0]), list(op[1])
             clock["t"] = t
@@ -517,6 +529,16 @@ def run_series(ctx: Ctx, recipe: Dict[str, Any], cid: str) -> Case:
             if any(x is not None for x in rates):
                 tags.add("rate:present")
                 nontrivial = True
+                # measured distance of the float from the exact quotient (design/C20.md, "float rates")
+                for k, x in enumerate(rates if cid.endswith(("0", "5")) else []):   # a fifth of the series
+                    pv = prev_vals[k] if prev_vals else None
+                    if x is not None and isinstance(pv, int) and isinstance(vals[k], int) and vals[k] > pv:
+                        exact = Fraction((vals[k] - pv) * 10**6, (1024 if k < 2 else 1) * (t - prev_t))
+                        rel = abs(Fraction(x) - exact) / exact
+                        tags.add("relerr:0" if rel == 0 else "relerr:<=2^-53" if rel <= Fraction(1, 2**53)
+                                 else "relerr:<=2^-52" if rel <= Fraction(1, 2**52) else "relerr:<=2^-51" if rel <= Fraction(1, 2**51)
+                                 else "relerr:>2^-51")
+            prev_vals, prev_t = vals, t
             if any(isinstance(v, BaseException) for v in vals):
                 tags.add("out:partial-failure")
                 nontrivial = True
@@ -602,6 +624,11 @@ SERIES_CFGS = [
 ]
 
 CORPUS = [
+    # F20b: both versions of WANIPConnection offered, an optional action implemented by one of them only
+    {"kind": "routing", "types": [T_IP1, T_IP2], "placement": "standard", "variant": "opt-v1",
+     "ops": ["async_request_termination", "async_get_port_mapping_number_of_entries", "async_get_external_ip_address"]},
+    {"kind": "routing", "types": [T_IP1, T_IP2], "placement": "standard", "variant": "opt-v2",
+     "ops": ["async_request_termination", "async_get_port_mapping_number_of_entries", "async_get_external_ip_address"]},
     # F20a: PPP-only gateway, connection-level operations
     {"kind": "routing", "types": [T_PPP], "placement": "standard", "variant": "std",
      "ops": ["async_get_external_ip_address", "async_get_status_info", "async_add_port_mapping"]},
@@ -634,8 +661,10 @@ def generate(ctx: Ctx) -> List[Case]:
     for r in range(0, 6):
         for subset in itertools.combinations(FIVE, r):
             for placement in ("root", "standard", "wan", "nested"):
-                for variant in ("std", "vendor", "reduced"):
+                for variant in ("std", "vendor", "reduced", "opt-v1", "opt-v2"):
                     if variant == "reduced" and placement in ("wan",):
+                        continue
+                    if variant.startswith("opt-") and not (T_IP1 in subset and T_IP2 in subset and placement in ("standard", "root")):
                         continue
                     explicit = []
                     if variant == "std" and placement in ("standard", "root"):
